@@ -241,12 +241,21 @@ COINCIDENT_TRANSFORMS = [
     ('midpath_rotated', lambda s: _mid(s).rotated(40, origin=1.1 - 0.3j)[1], lambda d: d * cmath.exp(1j * math.radians(40))),
     ('midpath_translated', lambda s: _mid(s).translated(0.1 + 0.2j)[1], lambda d: d),
     ('midpath_closed_scaled1.1', lambda s: _mid(s, close=True).scaled(1.1)[1], lambda d: d),
+    # neighbours of ANOTHER type (arcs are transformed by their own branch of each transform; the joints are re-joined afterwards)
+    ('midarcs_rotated', lambda s: _mid(s, arcs=True).rotated(40, origin=1.1 - 0.3j)[1], lambda d: d * cmath.exp(1j * math.radians(40))),
+    ('midarcs_rotated_default', lambda s: _mid(s, arcs=True).rotated(-75)[1], lambda d: d * cmath.exp(1j * math.radians(-75))),
+    ('midarcs_scaled1.1', lambda s: _mid(s, arcs=True).scaled(1.1)[1], lambda d: d),
+    ('midarcs_translated', lambda s: _mid(s, arcs=True).translated(0.1 + 0.2j)[1], lambda d: d),
+    ('midarcs_reversed_rotated', lambda s: _mid(s, arcs=True).reversed().rotated(40, origin=0j)[1], None),
 ]
 
 
-def _mid(s, close=False):
+def _mid(s, close=False, arcs=False):
     a = Line(s.start - (1.3 + 2.1j), s.start)
     b = Line(s.end, s.end + (2.3 - 1.7j))
+    if arcs:
+        a = Arc(s.start - (1.3 + 2.1j), 2 + 1.5j, 15, 0, 1, s.start)
+        b = Arc(s.end, 1.7 + 2.2j, -20, 0, 0, s.end + (2.3 - 1.7j))
     segs = [a, s, b]
     if close:
         segs.append(Line(b.end, a.start))
@@ -277,6 +286,8 @@ def check_coincident_transformed(name, hi, acc, only=None):
         if fd is None:
             tt = 1.0 - t0
             want = -want0
+            if 'rotated' in tname:
+                want = want * cmath.exp(1j * math.radians(40))
         else:
             w = fd(want0)
             want = w / abs(w)
@@ -342,7 +353,7 @@ def check_transforms(name, acc, shift=0j, warm=False):
 def path_checks(acc):
     from mc.props.c09 import chain
     segs = chain(('L_diagonal', 'Q_generic', 'C_arch', 'A_ellipse_3to1'))
-    p = Path(*segs)
+    p = AB.derive_path(Path(*segs))
     for T in (0.1, 0.3, 0.55, 0.8, 0.95):
         k, t = p.T2t(T)
         case = {'what': 'path', 'T': T}
@@ -364,13 +375,14 @@ def smooth_joint_paths():
     arcs = [Arc(2 + 0j, 2 + 2j, 0, 0, 1, 2j), Arc(2j, 2 + 2j, 0, 0, 1, -2 + 0j), Arc(-2 + 0j, 2 + 2j, 0, 0, 1, -2j)]
     line_curve = [Line(0j, 2 + 0j), CubicBezier(2 + 0j, 3 + 0j, 4 + 1j, 4 + 2j), Line(4 + 2j, 4 + 5j)]
     kinked = [Line(0j, 2 + 0j), Line(2 + 0j, 2 + 2j), QuadraticBezier(2 + 2j, 1 + 3j, 3j)]
+    two = [Line(0j, 2 + 0j), CubicBezier(2 + 0j, 3 + 0j, 4 + 1j, 4 + 2j), Line(9 + 9j, 12 + 5j), QuadraticBezier(12 + 5j, 13 + 7j, 15 + 6j)]
     return {'circle_4_cubics': (circle, True), 'arc_chain': (arcs, False), 'line_cubic_line': (line_curve, False),
-            'kinked': (kinked, False)}
+            'kinked': (kinked, False), 'two_subpaths': (two, False)}
 
 
 def joint_checks(acc):
     for name, (segs, closed) in smooth_joint_paths().items():
-        p = Path(*segs)
+        p = AB.derive_path(Path(*segs))
         n = len(segs)
         ls = [s.length() for s in segs]
         tot = sum(ls)
@@ -379,7 +391,8 @@ def joint_checks(acc):
         for l in ls[:-1]:
             accum += l / tot
             bounds.append(accum)
-        Ts = [(0.0, 0, 0.0), (1.0, n - 1, 1.0)] + [(b, None, None) for b in bounds]
+        # (where two consecutive segments do not meet there is no joint: a parameter there belongs to two points)
+        Ts = [(0.0, 0, 0.0), (1.0, n - 1, 1.0)] + [(b, None, None) for i_, b in enumerate(bounds) if segs[i_].end == segs[i_ + 1].start]
         for T, k_, t_ in Ts:
             case = {'what': 'joint', 'path': name, 'T': T}
             if k_ is None:
@@ -428,6 +441,7 @@ def shards(tier, seed):
     out += AB.provenance_shards(out, tier, lambda d: d['what'] in ('segment', 'transform') and not d.get('shift') and d.get('scale', 1.0) == 1.0)
     out.append({'what': 'path'})
     out.append({'what': 'joints'})
+    out += [dict(d, pprov=pv) for d in ({'what': 'path'}, {'what': 'joints'}) for pv in AB.PATH_PROVENANCES]      # cheap: all of them in both tiers
     if tier == 'thorough':
         allshapes = list(AB.LINES) + list(AB.QUADS) + list(AB.CUBICS) + list(AB.ARCS)
         out += [{'what': 'segment', 'shape': n, 'rot': r, 'scale': sc, 'dense': True} for n in allshapes
